@@ -1427,6 +1427,11 @@ protected:
   bool MapInsert__Impl(const Constraint& con, int i) {
     auto& map = GET_CONSTRAINT_MAP(Constraint);
     auto result = map.insert( { con, i } );
+    if (!result.second &&   // replace an entry whose constraint is unused
+        GET_CONST_CONSTRAINT_KEEPER(Constraint).IsUnused(result.first->second)) {
+      result.first->second = i;
+      return true;
+    }
     return result.second;
   }
 
